@@ -25,7 +25,7 @@ R=$DST/verify.log; : > $R
 )
 for c in $CHECKS; do
   VERIF_REPO=$WT VERIF_OUT=/tmp/ver_out_$ID VERIF_NO_SELFTEST=1 /verif/check $c > /tmp/ver_$ID.$c.log 2>&1
-  echo "check=$c exit=$? violation_lines=$(grep -c '^VIOLATION' /tmp/ver_$ID.$c.log) $(grep -m1 'fresh violations by clause' /tmp/ver_$ID.$c.log | cut -c1-300)" >> $R
+  echo "check=$c exit=$? violation_lines=$(grep -c '^VIOLATION' /tmp/ver_$ID.$c.log) $(grep -m1 'fresh violations by clause' /tmp/ver_$ID.$c.log | cut -c1-300) $(grep -m1 'HARNESS-ERROR' /tmp/ver_$ID.$c.log | cut -c1-300)" >> $R
 done
 git -C /repo worktree remove --force $WT
 rm -rf /tmp/ver_out_$ID /tmp/ver_$ID.*
